@@ -12,7 +12,7 @@ CLAIMED = {
    design="6/C11"),
  "C01": dict(
    technique="runtime monitoring: differential reference-model monitor (independent tree-walking reference semantics vs the real parser/compiler/VM) over generated and directed sessions, both compile modes, plain/tight/pregrown allocation",
-   text="Typed-generator sessions (closures, recursion, generators, every operator and operand source, planted faults of every class incl. non-boolean conditions around bodies of every weight, loops in tail position whose bodies end in compound statements, loop conditions routed through a writing identity function, helpers bound to built-in names, int and equal float literals side by side, slices beyond a prefix of a longer array) and directed corpus sessions are executed statement by statement by an independent reference interpreter and by the real pipeline in REPL and script mode; value tree, output bytes and error class must agree. Evidence lists executed instruction shapes and compile-context classes.",
+   text="Typed-generator sessions (closures, recursion, generators, every operator and operand source, planted faults of every class incl. non-boolean conditions around bodies of every weight, loops in tail position whose bodies end in compound statements, loop conditions routed through a writing identity function, helpers bound to built-in names, int and equal float literals side by side, slices beyond a prefix of a longer array, aton of rendered numbers followed by a line break or padded with blanks) and directed corpus sessions are executed statement by statement by an independent reference interpreter and by the real pipeline in REPL and script mode; value tree, output bytes and error class must agree. Evidence lists executed instruction shapes and compile-context classes.",
    note="Trusts harness/rs as the executable README; programs relying on behaviour the README leaves open are detected by the reference and dropped (counted).",
    design="6/C01"),
  "C02": dict(
@@ -32,7 +32,7 @@ CLAIMED = {
    design="6/C04"),
  "C05": dict(
    technique="runtime monitoring: universal no-abort monitor (panic/fatal/step-limit/undocumented-error oracle) over hostile parseable programs in child processes, both compile modes",
-   text="Grammar-random ill-typed programs, an enumerated hostile-value x operator/statement-position matrix, token mutations of corpus programs, fault-planted typed sessions, generator pipelines with lambdas in iterator expressions / recycled contexts / 130..300-local consumers, parameter lists repeating a name, texts outside the documented grammar that the parser may let through (run raw), two-bound slices, and hostile scripts through the real cmd/calc binary; in REPL and script compile mode inside child workers. Any panic, Go fatal (worker death), non-zero exit, undocumented error class, or step-limit hit where the reference interpreter terminates is a violation. Thorough tier replays under -race (checkptr) and -asan workers.",
+   text="Grammar-random ill-typed programs, an enumerated hostile-value x operator/statement-position matrix, token mutations of corpus programs, fault-planted typed sessions, generator pipelines with lambdas in iterator expressions / recycled contexts / 130..300-local consumers, parameter lists repeating a name, every reserved word in every position where a name can stand (whatever the parser lets through must run), texts outside the documented grammar that the parser may let through (run raw), two-bound slices, and hostile scripts through the real cmd/calc binary; in REPL and script compile mode inside child workers. Any panic, Go fatal (worker death), non-zero exit, undocumented error class, or step-limit hit where the reference interpreter terminates is a violation. Thorough tier replays under -race (checkptr) and -asan workers.",
    note="Ill-typed programs that loop forever have no reference verdict and are counted inconclusive/diverged; programs building values above 10^6 elements are dropped before the VM; exit() is never called.",
    design="6/C05"),
  "C09": dict(
@@ -92,7 +92,7 @@ CLAIMED = {
    design="6/C16"),
  "C17": dict(
    technique="runtime monitoring: contract monitors on injected values (render/round-trip laws evaluated by the program under test), list-model monitor for generator built-ins, enumerated misuse matrix, read() line-sequence monitor in-process and over real processes (pipe, file, FIFO, strace-injected EIO)",
-   text="Random and boundary ints/floats/strings (incl. format verbs)/nested arrays injected as globals: write(x) == write(toa(x)) == toa(x) == reference rendering and aton(toa(n)) == n; fromto/elems/indices collected by loops against plain lists; every built-in with 0..3 arguments of 9 kinds must fail exactly when its contract says so; successive read() calls must return successive lines then a read error, in-process and with the real binary reading a pipe, a file, a chunk-fed FIFO and a file with an injected EIO; lines may be empty, end in CR or exceed 64 KiB; an exit family checks that what a statement wrote before exit(k) is on standard output and the status is k; generator built-ins also run with mixed int/float bounds.",
+   text="Random and boundary ints/floats/strings (incl. format verbs)/nested arrays injected as globals: write(x) == write(toa(x)) == toa(x) == reference rendering and aton(toa(n)) == n, several renderings kept alive in one expression and across statements must stay what they were, the rendering followed by a line break or padded with a blank must be a conversion error; fromto/elems/indices collected by loops against plain lists; every built-in with 0..3 arguments of 9 kinds must fail exactly when its contract says so; successive read() calls must return successive lines then a read error, in-process and with the real binary reading a pipe, a file, a chunk-fed FIFO and a file with an injected EIO; lines may be empty, end in CR or exceed 64 KiB; an exit family checks that what a statement wrote before exit(k) is on standard output and the status is k; generator built-ins also run with mixed int/float bounds.",
    note="Float rendering = Go shortest round-trip formatting; input always ends with a newline; after an injected EIO only 'reported, process alive, script continues' is demanded.",
    design="6/C17"),
  "C19": dict(
